@@ -150,6 +150,37 @@ impl S {
         }
     }
 
+    /// Like `flatten`, and a *parenthesised* group in body position is merged as well
+    /// (`x = a; (y = b; c)`), which is what gram's parser does with it: the group the
+    /// definition-order rule is about.
+    pub fn flatten_merged(&self) -> S {
+        let f = |x: &S| Box::new(x.flatten_merged());
+        match self {
+            S::Lam { name, implicit, ann, body } => {
+                S::Lam { name: name.clone(), implicit: *implicit, ann: ann.as_ref().map(|a| f(a)), body: f(body) }
+            }
+            S::Pi { name, implicit, dom, cod } => S::Pi { name: name.clone(), implicit: *implicit, dom: f(dom), cod: f(cod) },
+            S::App(a, b) => S::App(f(a), f(b)),
+            S::Bin(op, a, b) => S::Bin(*op, f(a), f(b)),
+            S::Neg(a) => S::Neg(f(a)),
+            S::Paren(a) => S::Paren(f(a)),
+            S::If(a, b, c) => S::If(f(a), f(b), f(c)),
+            S::Let { defs, body } => {
+                let mut all: Vec<Def> = defs
+                    .iter()
+                    .map(|d| Def { name: d.name.clone(), ann: d.ann.as_ref().map(S::flatten_merged), def: d.def.flatten_merged() })
+                    .collect();
+                let mut b = body.flatten_merged();
+                while let S::Let { defs: inner, body: ib } = b.strip().clone() {
+                    all.extend(inner);
+                    b = *ib;
+                }
+                S::Let { defs: all, body: Box::new(b) }
+            }
+            other => other.clone(),
+        }
+    }
+
     /// Remove all explicit parentheses (the denoted tree).
     pub fn unparen(&self) -> S {
         let f = |x: &S| Box::new(x.unparen());
